@@ -355,6 +355,47 @@ func buildPool(r *rng.R) ([]HistOp, []*filegen.File, []string) {
 			op.Note = "aborted_invalid_utf8_panic"
 		case 2:
 			op.Fault = DiskFault{Kind: []string{"enoent", "eio", "empty", "torn", "flip"}[r.Intn(5)], Offset: r.Intn(200)}
+		case 4:
+			// ill-formed: 1-3 top-level statements written twice (duplicate text / movement
+			// labels: error paths that walk the parser's tables)
+			var tt []string
+			dups := r.Range(1, 3)
+			for k, it := range f.Items {
+				tt = append(tt, it.Toks...)
+				if dups > 0 && it.Kind != "const" && (r.P(0.5) || len(f.Items)-k <= dups) {
+					tt = append(tt, it.Toks...)
+					dups--
+				}
+			}
+			for _, it := range f.Items {
+				// a text named like a hoisted label of a script in this file
+				if it.Kind == "script" && r.P(0.3) {
+					tt = append(tt, "text", it.Name+"_Text_0", "{", `"clash"`, "}")
+				}
+				if it.Kind == "script" && r.P(0.2) {
+					tt = append(tt, "movement", it.Name+"_Movement_0", "{", "walk_up", "}")
+				}
+			}
+			op.Src = filegen.Join(tt, 1, nil)
+			op.Note = "illformed_duplicated_statements"
+		case 5:
+			// ill-formed: seeded token loss / duplication / swap / replacement
+			tt := append([]string{}, f.Tokens(nil)...)
+			for k := r.Range(1, 3); k > 0 && len(tt) > 1; k-- {
+				j := r.Intn(len(tt) - 1)
+				switch r.Intn(4) {
+				case 0:
+					tt = append(tt[:j:j], tt[j+1:]...)
+				case 1:
+					tt = append(tt[:j+1:j+1], tt[j:]...)
+				case 2:
+					tt[j], tt[j+1] = tt[j+1], tt[j]
+				default:
+					tt[j] = soupVocab[r.Intn(len(soupVocab))]
+				}
+			}
+			op.Src = filegen.Join(tt, 1, nil)
+			op.Note = "illformed_token_faults"
 		case 3:
 			// unknown font id written in the source: the error message lists the known ids
 			op.Src += "\ntext UnknownFont { format(\"some text\", \"nofont\") }\n"
